@@ -637,6 +637,7 @@ package header
 //@   requires len(b) >= 1 && int((b[0] & 0xf) * 4) <= cap(b)
 //@   ensures oc16(uint64(result)) == oc16(wsum16(b, 0, int((b[0] & 0xf) * 4)))
 //@   ensures (result == 0) == (wsum16(b, 0, int((b[0] & 0xf) * 4)) == 0)
+//@   ensures implies(b[0] & 0xf == 5, oc16(uint64(result)) == oc16(wsum16(b, 0, 20)))
 
 //@ func (IPv4).EncodePartial props C15 C06
 //@   requires len(b) >= 12
